@@ -7,6 +7,7 @@ import (
 	"sync"
 	"time"
 
+	ipfslog "berty.tech/go-ipfs-log"
 	"berty.tech/go-orbit-db/events"
 	"berty.tech/go-orbit-db/iface"
 	"berty.tech/go-orbit-db/stores"
@@ -66,6 +67,11 @@ func scenC16(k *K) {
 					return fmt.Sprintf("%s got EventWrite for %s but List(-1) does not show it", who, EntryName(ev.Entry))
 				}
 			}
+			if kv, ok := P.(iface.KeyValueStore); ok {
+				if msg := c16ViewReflects(kv, ev.Entry); msg != "" {
+					return fmt.Sprintf("%s got EventWrite for %s but %s", who, EntryName(ev.Entry), msg)
+				}
+			}
 		case stores.EventReplicated:
 			for _, en := range ev.Entries {
 				if _, ok := P.OpLog().Get(en.GetHash()); !ok {
@@ -74,6 +80,11 @@ func scenC16(k *K) {
 				if el, ok := P.(iface.EventLogStore); ok {
 					if !containsVal(listValues(el), valueOf(en.GetPayload())) {
 						return fmt.Sprintf("%s got EventReplicated for %s but List(-1) does not show it", who, EntryName(en))
+					}
+				}
+				if kv, ok := P.(iface.KeyValueStore); ok {
+					if msg := c16ViewReflects(kv, en); msg != "" {
+						return fmt.Sprintf("%s got EventReplicated for %s but %s", who, EntryName(en), msg)
 					}
 				}
 			}
@@ -97,7 +108,7 @@ func scenC16(k *K) {
 					s.mu.Lock()
 					s.seq[t] = append(s.seq[t], key)
 					s.n++
-					if msg := check(name, e); msg != "" {
+					if msg := atomicRead(func() string { return check(name, e) }); msg != "" {
 						s.fails = append(s.fails, msg)
 					}
 					s.mu.Unlock()
@@ -166,6 +177,13 @@ func scenC16(k *K) {
 		}))
 	}
 	k.F = FaultCfg{Deliver: 5, Serve: 5, Refresh: 3, Tick: 1, Reorder: 1, ServeAny: 1}
+	k.Invariant = func() {
+		if kv, ok := P.(iface.KeyValueStore); ok {
+			if want, got := ReplayLWW(LogValues(kv)), KVState(kv); !EqMap(want, got) {
+				k.Failf("C16/view-behind-log", "at a quiescent point P's view %s is not the replay of its log %s", MapStr(got), MapStr(want))
+			}
+		}
+	}
 	target := k.C.Range(4, 30)
 	overflow := k.C.Chance(1, 2) // aim at the legacy emitter's overflow queue: more than 16 events behind a stalled consumer
 	if overflow {
@@ -443,4 +461,47 @@ func scenC16Boundary(k *K) {
 	k.Notes["nontrivial"] = first > 16
 	cancel()
 	c.CloseAll()
+}
+
+// c16ViewReflects: when an event announcing entry e is received, the key-value view must show,
+// for e's key, the effect of e or of an entry ordered after e in the log (never an older value).
+func c16ViewReflects(kv iface.KeyValueStore, e ipfslog.Entry) string {
+	o, ok := decodeOp(e.GetPayload())
+	if !ok || o.Key == nil {
+		return ""
+	}
+	vals := LogValues(kv)
+	pos := -1
+	for i, x := range vals {
+		if x.GetHash().Equals(e.GetHash()) {
+			pos = i
+		}
+	}
+	if pos < 0 {
+		return "the entry is not in the log's total order"
+	}
+	got, _ := kv.Get(context.Background(), *o.Key)
+	for _, x := range vals[pos:] {
+		xo, ok := decodeOp(x.GetPayload())
+		if !ok || xo.Key == nil || *xo.Key != *o.Key {
+			continue
+		}
+		if xo.Op == "PUT" && string(xo.Value) == string(got) && (got != nil || len(xo.Value) == 0) {
+			return ""
+		}
+		if xo.Op == "DEL" && got == nil {
+			return ""
+		}
+	}
+	return fmt.Sprintf("Get(%q) returns %q, which is neither its effect nor that of a later entry", *o.Key, got)
+}
+
+// atomicRead runs an oracle read on a harness goroutine other than the kernel's without letting
+// the inserted yield points interleave SUT goroutines into it (reads of log and view must see
+// one state). Only one goroutine runs at a time, so flipping the flag is safe.
+func atomicRead(f func() string) string {
+	prev := inKernel
+	inKernel = true
+	defer func() { inKernel = prev }()
+	return f()
 }
